@@ -75,7 +75,7 @@ def gen_cases(tier, seed, shard, nshards):
         mix = set(k for k in kinds if rnd.random() < 0.5)
         focus = rnd.choice(['any', 'any', 'requeue', 'reset', 'exit-race'])
         if focus == 'requeue':        # server-initiated timeout on a reused connection with a backlog
-            idle, pool_size, ncallers = 0.03, rnd.choice([1, 2]), rnd.randint(4, 12)
+            idle, pool_size, ncallers = 0.03, rnd.choice([1, 2, None, None]), rnd.randint(4, 12)
             mix = (mix - {'gates'} if rnd.random() < 0.5 else mix) | {'idleclose' if mode == 'http' else 'idle421'}
         elif focus == 'reset':        # failed transactions followed by another message on the connection
             idle, pool_size, ncallers = 0.03, rnd.choice([1, 2, 3]), rnd.randint(4, 12)
@@ -85,7 +85,8 @@ def gen_cases(tier, seed, shard, nshards):
             ncallers = max(ncallers, pool_size + 1)
             mix = mix | {'gates'}
         mix = sorted(mix)
-        case = {'mode': mode, 'pool_size': pool_size, 'idle': idle, 'ncallers': ncallers, 'mix': mix,
+        arrival = 'trickle' if (pool_size is None and idle and rnd.random() < 0.8) or rnd.random() < 0.15 else 'bursty'
+        case = {'arrival': arrival, 'mode': mode, 'pool_size': pool_size, 'idle': idle, 'ncallers': ncallers, 'mix': mix,
                 'pipelining': rnd.random() < 0.7, 'seed': seed * 1000003 + idx}
         if mode == 'http':
             case['http_timeout'] = 0.03 if 'timeout' in mix else None
@@ -296,8 +297,10 @@ def run_case(case, R):
         R.hit('requeue', lab.cnt['requeue'])
         R.hit('respawn-after-last-exit', lab.cnt['respawn'])
         for k, v in lab.cnt.items():
-            if k.startswith(('fault:', 'gate:', 'idle-expiry-')):
+            if k.startswith(('fault:', 'gate:', 'idle-expiry-', 'race:', 'snipe')):
                 R.count(k, v)
+        if case['idle'] and out['open_left'] and not out['stranded']:
+            R.count('connections-still-open-after-idle-timeout', out['open_left'])
         R.count('runs')
         R.count('callers', len(lab.callers))
         R.count('connections', len(lab.ds.conns) if lab.ds is not None else len(lab.http.conns))
